@@ -28,7 +28,7 @@ impl<T> Arc<T> {
     /// Returns the inner value, if the `Arc` has exactly one strong reference.
     #[track_caller]
     pub fn try_unwrap(this: Arc<T>) -> Result<T, Arc<T>> {
-        if !this.obj.get_mut(location!()) {
+        if !this.obj.try_unwrap(location!()) {
             return Err(this);
         }
 
